@@ -190,6 +190,16 @@ class ObjMachine(Machine):
         else:
             mask = w.choice([0, 3, 255, 0x0503, 0xFFFFFFFF, 0x00010100])
             line = f"{gen.ip(gen._base(w) & ~mask & 0xFFFFFFFF)} {gen.ip(mask)}"
+        # rarely used keyword arguments (a rebuild has to carry every one of them)
+        if cls in ("Acl", "AceGroup", "Ace", "Address", "AddressAg", "AddrGroup", "Wildcard") \
+                and w.random() < 0.3:
+            kw["max_ncwb"] = w.choice([8, 20, 24, 30])
+        if cls in ("Acl", "AceGroup", "Ace") and w.random() < 0.3:
+            kw["port_nr"] = w.random() < 0.5
+            kw["protocol_nr"] = w.random() < 0.5
+        if cls == "Acl" and w.random() < 0.3:
+            kw["indent"] = w.choice([" ", "    ", ""])
+            kw["output"] = ["interface Eth2", "interface Eth3"]
         return dict(op="obj_new", cls=cls, line=line, kw=kw, members=members,
                     note=w.randrange(len(NOTES)), subnote=w.random() < 0.5)
 
@@ -231,7 +241,7 @@ class ObjMachine(Machine):
         if r < 0.68:
             return dict(op="interleave", t=t, arg=s.randint(0, 99))
         kind = s.choice(["platform", "platform", "port_nr", "protocol_nr", "type", "resequence",
-                         "sort", "group", "ungroup", "platform_same"])
+                         "sort", "group", "ungroup", "platform_same", "type_std"])
         return dict(op="transform", t=t, kind=kind, arg=s.randint(0, 99))
 
     # ------------------------------------------------------------- apply
@@ -711,6 +721,7 @@ class ObjMachine(Machine):
             "port_nr": cname in ("Acl", "AceGroup", "Ace", "Remark", "Port"),
             "protocol_nr": cname in ("Acl", "AceGroup", "Ace", "Remark", "Protocol"),
             "type": cname in ("Acl", "AceGroup", "Ace", "Remark"),
+            "type_std": cname in ("Acl", "AceGroup", "Ace", "Remark") and plat == "ios",
             "resequence": cname in ("Acl", "AceGroup", "AddrGroup"),
             "sort": cname in ("Acl", "AceGroup", "AddrGroup"),
             "group": cname == "Acl", "ungroup": cname == "Acl",
@@ -749,6 +760,8 @@ class ObjMachine(Machine):
                 x.protocol_nr = not x.protocol_nr
             elif kind == "type":
                 x.type = "extended"
+            elif kind == "type_std":
+                x.type = "standard"
             elif kind == "resequence":
                 x.resequence(10 + op["arg"], 10)
             elif kind == "sort":
@@ -760,6 +773,19 @@ class ObjMachine(Machine):
         except DOCUMENTED as ex:
             # abort rule: retire a torn object
             self.faults[f"abort[{kind}]"] += 1
+            # ... but a refused transformation has replaced nothing by a split: every entry that
+            # is still there is the entry that was there (identifier and note)
+            after = self._idmap(x, cname)
+            b1 = [(u, n) for _, u, n, lf in before["L1"]]
+            a1 = [(u, n) for _, u, n, lf in after["L1"]]
+            if before["L0"] != after["L0"] or (len(a1) == len(b1) and a1 != b1):
+                self.probes["identity_checked_after_refusal"] += 1
+                self.soft_fail("C16", "C16.identity",
+                               f"{cname}.{kind} was refused ({type(ex).__name__}) and replaced "
+                               f"entries: {[p_ for p_ in zip(b1, a1) if p_[0] != p_[1]][:2]}",
+                               level="refused", transformation=kind, cls=cname)
+            elif len(a1) == len(b1):
+                self.probes["identity_checked_after_refusal"] += 1
             if snapshot(x) != pre:
                 self.probes[f"torn_after_abort[{kind}]"] += 1
                 self.slots.remove(slot)
